@@ -141,8 +141,9 @@ FracIsBoundF(m, num, den, opt, F) ==
   \/ /\ Cardinality(ObjSupport(m)) = 1
      /\ LET r == CHOOSE k \in ObjSupport(m) : TRUE IN (num * opt) % (den * Abs(m.c[r])) = 0
      /\ AllFinite(m)
-  \/ /\ AllFinite(m)
-     /\ LET worst == OptIn(F, m.c, IF m.dir = "max" THEN "min" ELSE "max") IN
+  \/ LET other == IF m.dir = "max" THEN "min" ELSE "max" IN      \* the restriction is vacuous on the whole polyhedron
+     /\ ~\E z \in Rays(m) : Improves(m.c, other, z)
+     /\ LET worst == OptIn(F, m.c, other) IN
         IF m.dir = "max" THEN den * worst >= num * opt ELSE den * worst <= num * opt
 FvaExpectF(m, s, F, opt) ==
   LET rl == ReqList(m, s)
